@@ -33,25 +33,29 @@ type op struct {
 }
 
 type program struct {
-	ID      string `json:"id"`
-	Threads [][]op `json:"threads"`
-	Extra   string `json:"extra"` // "c0": a second reference to the promised client exists from the start
-	Budget  int    `json:"budget"` // schedules for this program (0: the default given on the command line)
+	ID       string `json:"id"`
+	Threads  [][]op `json:"threads"`
+	Extra    string `json:"extra"`    // "c0": a second reference to the promised client exists from the start
+	Weak     string `json:"weak"`     // "w1": a weak reference to k1 exists from the start
+	Promise2 bool   `json:"promise2"` // a second promised client c7 -> p2 exists (Fulfill with w = "p2" resolves it)
+	Mode     string `json:"mode"`     // "rnd": seeded random schedules instead of depth-first enumeration
+	Budget   int    `json:"budget"`   // schedules for this program (0: the default given on the command line)
 }
 
 // ---------------- one execution ----------------
 
 type world struct {
 	*vsched.World
-	mu      sync.Mutex
-	handles map[string]*capnp.Client
-	weaks   map[string]*capnp.WeakClient
-	promise *capnp.ClientPromise
+	mu       sync.Mutex
+	handles  map[string]*capnp.Client
+	weaks    map[string]*capnp.WeakClient
+	promise  *capnp.ClientPromise
+	promise2 *capnp.ClientPromise
 }
 
-func (w *world) log(e J)          { w.Log(e) }
-func (w *world) thread() int      { return w.Thread() }
-func (w *world) yield(s string)   { w.Yield(s) }
+func (w *world) log(e J)        { w.Log(e) }
+func (w *world) thread() int    { return w.Thread() }
+func (w *world) yield(s string) { w.Yield(s) }
 
 type vhook struct {
 	w    *world
@@ -146,10 +150,14 @@ func (w *world) exec(t int, o op) (res string) {
 		}
 		return "client"
 	case "Fulfill":
+		pr := w.promise
+		if o.W == "p2" {
+			pr = w.promise2
+		}
 		if o.H == "nil" {
-			w.promise.Fulfill(nil)
+			pr.Fulfill(nil)
 		} else {
-			w.promise.Fulfill(w.get(o.H))
+			pr.Fulfill(w.get(o.H))
 		}
 		return "ok"
 	}
@@ -180,7 +188,17 @@ func runOnce(p *program, ch vsched.Chooser) *vsched.Outcome {
 		if p.Extra == "c0" {
 			w.handles["c0"] = w.handles["c2"].AddRef()
 		}
-		vw.Log(J{"ev": "reset", "t": 0, "k": "", "op": "", "h": p.Extra, "new": "", "w": "", "res": "", "prog": p.ID})
+		nw := ""
+		if p.Promise2 {
+			w.handles["c7"], w.promise2 = capnp.NewPromisedClient(&vhook{w, "p2"})
+			nw = "c7"
+		}
+		wk := ""
+		if p.Weak == "w1" {
+			w.weaks["w1"] = w.handles["c1"].WeakRef()
+			wk = "w1"
+		}
+		vw.Log(J{"ev": "reset", "t": 0, "k": "", "op": "", "h": p.Extra, "new": nw, "w": wk, "res": "", "prog": p.ID})
 	}, threads, ch)
 	if out.Hang == "" {
 		out.Trace = append(out.Trace, J{"ev": "quiesce", "t": 0, "k": "", "op": "", "h": "", "new": "", "w": "", "res": ""})
@@ -240,9 +258,13 @@ func main() {
 			}
 			emitTrace(o, &p, sched)
 		}
-		if mode == "rnd" {
+		if mode == "rnd" || p.Mode == "rnd" {
 			r := rand.New(rand.NewSource(seed*7919 + int64(nprog)))
-			for i := 0; i < budget; i++ {
+			n := budget
+			if p.Budget > 0 {
+				n = p.Budget
+			}
+			for i := 0; i < n; i++ {
 				o := runOnce(&p, &randChooser{r})
 				report(o, o.Taken)
 			}
